@@ -56,6 +56,19 @@ Verdict(r) ==
                               LET nb == BytesOf(r.ns[k], w) IN
                               Flag(row, nb) = "" /\ ~(r.cells[k][1] = nb /\ r.cells[k][2] = 1)}
                 IN IF bad = {} THEN Pass ELSE Fail("number->raw->number", r.ns[MinOf(bad)])
+      [] r.kind = "fromlist" ->
+           \* the value taken out of a bank image: a list that ends inside the value, or has None inside it, means "not
+           \* implemented"; otherwise the interpretation of the bytes at the value's locations
+           IF ~HasRow(r.bank, r.name) THEN Pass
+           ELSE LET row == Map[RowIx(r.bank, r.name)]
+                    end == r.start + row[4]
+                    bad == {k \in 1..Len(r.probes) :
+                              LET p == r.probes[k]
+                                  c == Cells[r.cells[k]]
+                                  incomplete == (p[1] = "len" /\ p[2] < end) \/ p[1] = "none"
+                              IN IF incomplete THEN ~(c.k = "exc" /\ c.s = "MemoryLocationNotImplemented")
+                                 ELSE ~ValueOK(row, r.raw, c)}
+                IN IF bad = {} THEN Pass ELSE Fail("from_list", r.probes[MinOf(bad)][2])
       [] r.kind = "invstr" ->
            \* cells[k] = <<raw bytes, back-equal flag>> for the ASCII text r.texts[k] (as bytes)
            LET row == Map[RowIx(r.bank, r.name)]
